@@ -89,13 +89,15 @@ theorem C18_nested_load_cex :
 /-- **An `Exception` in user code is contained**: whatever the trigger expression, the `@state_active`
 expression and the function body of an occurrence do (return or raise), serving the occurrence returns normally
 (the function is total: nothing propagates), consumes the occurrence, leaves the trigger's subscriptions/timers
-unchanged, and logs exactly the first failure – one record, on the script's logger, with the script traceback
-(entry points that catch: legacy subsystem, services, expressions, `task.create`). -/
-theorem C18_contained (lg : String) (s : Loop) (o : Occ) :
-    (serve true lg s o).subs = s.subs ∧
-    (serve true lg s o).served = s.served + 1 ∧
-    (serve true lg s o).log = s.log ++ (specRecs o).map (scriptRec lg) ∧
+unchanged, and logs exactly the first failure – one record, on the script's logger, with the script traceback –
+in BOTH trigger subsystems (and for services, expressions, `task.create`, which are the `caught` shape too). -/
+theorem C18_contained (sub : Subsys) (lg : String) (s : Loop) (o : Occ) :
+    (serve (fnCaught sub) lg s o).subs = s.subs ∧
+    (serve (fnCaught sub) lg s o).served = s.served + 1 ∧
+    (serve (fnCaught sub) lg s o).log = s.log ++ (specRecs o).map (scriptRec lg) ∧
     (specRecs o).length ≤ 1 := by
+  have hc : fnCaught sub = true := by cases sub <;> rfl
+  rw [hc]
   refine ⟨(serve_spec true lg s o).1, (serve_spec true lg s o).2.1, serve_log_caught lg s o, ?_⟩
   unfold specRecs
   cases o.expr <;> cases o.exprTrue <;> cases o.active <;> cases o.activeTrue <;> cases o.body <;> simp
@@ -103,12 +105,14 @@ theorem C18_contained (lg : String) (s : Loop) (o : Occ) :
 /-- **The loop survives any sequence of failures**: after any list of occurrences, every one has been served,
 the subscriptions are unchanged, the function ran exactly for the qualifying occurrences, and the log holds exactly
 one record per failing occurrence, in order. -/
-theorem C18_loop_survives (lg : String) (os : List Occ) (s : Loop) :
-    (serveAll true lg s os).subs = s.subs ∧
-    (serveAll true lg s os).served = s.served + os.length ∧
-    (serveAll true lg s os).runs = s.runs + (os.filter specRuns).length ∧
-    (serveAll true lg s os).done = s.done + (os.filter (fun o => specRuns o && o.body == Res.ok)).length ∧
-    (serveAll true lg s os).log = s.log ++ (os.flatMap specRecs).map (scriptRec lg) := by
+theorem C18_loop_survives (sub : Subsys) (lg : String) (os : List Occ) (s : Loop) :
+    (serveAll (fnCaught sub) lg s os).subs = s.subs ∧
+    (serveAll (fnCaught sub) lg s os).served = s.served + os.length ∧
+    (serveAll (fnCaught sub) lg s os).runs = s.runs + (os.filter specRuns).length ∧
+    (serveAll (fnCaught sub) lg s os).done = s.done + (os.filter (fun o => specRuns o && o.body == Res.ok)).length ∧
+    (serveAll (fnCaught sub) lg s os).log = s.log ++ (os.flatMap specRecs).map (scriptRec lg) := by
+  have hc : fnCaught sub = true := by cases sub <;> rfl
+  rw [hc]
   induction os generalizing s with
   | nil => simp [serveAll]
   | cons o r ih =>
@@ -125,11 +129,12 @@ theorem C18_loop_survives (lg : String) (os : List Occ) (s : Loop) :
     · rw [d, h2]
       simp [List.flatMap_cons]
 
-/-- **Finding C18-F2 (witness).**  In the new decorator subsystem the trigger function is awaited without a
-handler (`FunctionDecoratorManager._call`): its exception is still contained (the loop state is as above) but it is
-reported by `Function.run_coro` on the integration's generic logger with a Python traceback – not on the script's
-logger, and without script file/function/line. -/
-theorem C18_new_subsystem_cex (lg : String) (s : Loop) (e : Nat) :
+/-- **Regression witness for the repaired finding C18-F2.**  If a trigger function is awaited WITHOUT a handler (the
+shape of `FunctionDecoratorManager._call` before commit b73983a), its exception is still contained (loop state as
+above) but it is reported by `Function.run_coro` on the integration's generic logger with a Python traceback – not on
+the script's logger, and without script file/function/line.  The current code no longer has this shape
+(`fnCaught .new = true`); the entry family checks that on every run. -/
+theorem C18_regress_uncaught_trigger_function (lg : String) (s : Loop) (e : Nat) :
     (serve false lg s ⟨.ok, true, .ok, true, .raise e⟩).log = s.log ++ [{ logger := "function", exc := e, scriptTb := false }] ∧
     (serve false lg s ⟨.ok, true, .ok, true, .raise e⟩).subs = s.subs ∧
     (serve false lg s ⟨.ok, true, .ok, true, .raise e⟩).served = s.served + 1 := by
